@@ -92,6 +92,7 @@ pub struct CorpusSpec {
     pub seed: u64,
     pub generated: usize,
     pub mutated: usize,
+    pub layout: usize,
 }
 
 pub fn build(spec: &CorpusSpec, repo: &Path, verif: &Path) -> Vec<Case> {
@@ -124,6 +125,26 @@ pub fn build(spec: &CorpusSpec, repo: &Path, verif: &Path) -> Vec<Case> {
             cases.push(Case {
                 id: format!("pad/{size}<{}", src.id),
                 origin: "padded",
+                text: Arc::from(text),
+                args: src.args.clone(),
+                witness: src.witness.clone(),
+            });
+        }
+    }
+    // layout variants of accepted and rejected programs
+    {
+        let n = cases.len();
+        for i in 0..spec.layout {
+            let s = mix(spec.seed ^ tag("layout") ^ (i as u64));
+            let mut rng = Prng::new(s);
+            let src = cases[rng.below(n)].clone();
+            if src.text.len() > 100_000 {
+                continue;
+            }
+            let text = crate::mutate::layout(&mut rng, &src.text);
+            cases.push(Case {
+                id: format!("lay/{i}<{}", src.id),
+                origin: "layout",
                 text: Arc::from(text),
                 args: src.args.clone(),
                 witness: src.witness.clone(),
